@@ -16,7 +16,7 @@ type Omni struct {
 	PosSample int
 	AllPos    bool
 	OnlyBase  int // replay: >=0 restricts to one base
-	OnScenario func(s *Scenario, loc map[string]interface{}, collect []QResult)
+	OnScenario func(s *Scenario, loc map[string]interface{}, collect []CollectRes)
 }
 
 func subSeed(seed int64, i int) int64 { return seed*1000003 + int64(i)*7919 + 17 }
@@ -41,7 +41,7 @@ func omnibus(run *Run, o Omni, visit Visit) {
 				o.OnScenario(s, loc, coll)
 			}
 			for _, c := range coll {
-				visit(s, s.Main, Query{Name: c.Name}, c, loc)
+				visit(s, c.P, Query{Name: c.R.Name}, c.R, loc)
 			}
 			for _, p := range s.W.Paths {
 				for _, q := range s.pathQueries(p) {
